@@ -255,6 +255,19 @@ pub fn alphabet(sc: &Scope, asks: &[(String, AskOrderV1)], bids: &[(String, BidO
         }
         v.push(ex("mallory", vec![], ExecuteMsg::RejectBid { id: k.clone(), size: Some(Uint128::new(inc)) }));
     }
+    // an open order addressed by another spelling of its id (no order is stored under that key)
+    for (k, a) in asks {
+        let plain: String = k.chars().filter(|c| *c != '-').collect();
+        v.push(ex(a.owner.as_str(), vec![], ExecuteMsg::CancelAsk { id: plain.clone() }));
+        v.push(ex(sc.exec, vec![], ExecuteMsg::ExpireAsk { id: k.to_uppercase() }));
+        v.push(ex(sc.exec, vec![], ExecuteMsg::RejectAsk { id: plain, size: None }));
+    }
+    for (k, b) in bids {
+        let plain: String = k.chars().filter(|c| *c != '-').collect();
+        v.push(ex(b.owner.as_str(), vec![], ExecuteMsg::CancelBid { id: plain.clone() }));
+        v.push(ex(sc.exec, vec![], ExecuteMsg::ExpireBid { id: k.to_uppercase() }));
+        v.push(ex(sc.exec, vec![], ExecuteMsg::RejectBid { id: plain, size: Some(Uint128::new(inc)) }));
+    }
     // configuration changes
     let modify = |ap: Option<Vec<&str>>, exs: Option<Vec<&str>>, ar: Option<&str>, aa: Option<&str>, br: Option<&str>, ba: Option<&str>, at: Option<Vec<&str>>, bt: Option<Vec<&str>>| ExecuteMsg::ModifyContract {
         approvers: ap.map(|l| l.into_iter().map(s).collect()),
